@@ -47,6 +47,12 @@ def sanitizeModuleName (treatDot : Bool) (name : List Char) : List Char :=
   | c :: _ => if isAsciiDigit c then '_' :: s else s
   | [] => s
 
+/-- shape of an ASCII identifier: nonempty, `[A-Za-z_][A-Za-z0-9_]*` (keywords are not excluded) -/
+def isAsciiIdentShape (s : List Char) : Bool :=
+  match s with
+  | [] => false
+  | c :: _ => !isAsciiDigit c && s.all (fun c => isAsciiAlnum c || c == '_')
+
 /-- `get_module_path(name, file_path, treat_dot_as_module=…)`.  `file` is `none` for a document
 given as text, else `(file_path.parts[:-1], file_path.stem)` (pathlib is trusted). -/
 def getModulePath (treatDot : Bool) (name : List Char) (file : Option (List Name × Name)) : MPath :=
@@ -251,8 +257,8 @@ def shadowFree (ks : List FileKey) : Bool :=
     | .py d s => ks.all (fun k' => !((d ++ [s]).isPrefixOf k'.dir))
     | .init _ => true)
 
-/-- every package directory on the way to a file has an `__init__.py` -/
+/-- every package directory between the output root and a file has an `__init__.py` -/
 def parentsHaveInit (ks : List FileKey) : Bool :=
-  ks.all (fun k => (List.range (k.dir.length + 1)).all (fun j => ks.contains (.init (k.dir.take j))))
+  ks.all (fun k => (nonemptyPrefixes k.dir).all (fun d => ks.contains (.init d)))
 
 end Dcg.Model.Modules
